@@ -20,11 +20,18 @@ Proof.
   destruct (set_existing id v t) as [t'|]; reflexivity.
 Qed.
 
+Lemma abs_exts_filter id es :
+  abs_exts (filter (fun x => negb (eid x =? id)) es) = filter (fun p => negb (fst p =? id)) (abs_exts es).
+Proof.
+  induction es as [|e t IH]; [reflexivity|]. cbn [filter abs_exts map fst].
+  destruct (eid e =? id); cbn [negb abs_exts map]; [exact IH|]. f_equal. exact IH.
+Qed.
+
 Lemma del_first_spec id es :
   option_map abs_exts (del_first id es) = am_del id (abs_exts es).
 Proof.
   induction es as [|e t IH]; [reflexivity|].
-  cbn [del_first abs_exts map am_del]. destruct (eid e =? id); [reflexivity|].
+  cbn [del_first abs_exts map am_del]. destruct (eid e =? id); [cbn [option_map]; f_equal; apply abs_exts_filter|].
   fold (abs_exts t). rewrite <- IH. destruct (del_first id t); reflexivity.
 Qed.
 
@@ -50,7 +57,7 @@ Definition valid_for (profile id : Z) (v : list Z) : option err :=
     else if (zlen v =? 0) || (16 <? zlen v) then Some ESize else None
   else if profile =? profile_two_byte then
     if id <? 1 then Some EIdRange else if 255 <? zlen v then Some ESize else None
-  else if negb (id =? 0) then Some EIdRange else None.
+  else if negb (id =? 0) then Some EIdRange else if 262140 <? zlen v then Some ESize else None.
 
 Inductive op := OSet (id : Z) (v : list Z) | ODel (id : Z) | OGet (id : Z) | OIds.
 Inductive out := RDone (e : option err) | RVal (o : option (list Z)) | RIds (o : option (list Z)).
@@ -120,6 +127,7 @@ Proof.
            destruct (set_existing id v (extensions h)); cbn [extension extension_profile extensions with_exts];
              rewrite <- Hs; (split; [reflexivity|intros; discriminate]).
         -- destruct (negb (id =? 0)); [split; [rewrite ?Hx; reflexivity|exact Hshape]|].
+           destruct (262140 <? zlen v); [split; [rewrite ?Hx; reflexivity|exact Hshape]|].
            pose proof (set_existing_spec id v (extensions h)) as Hs.
            destruct (set_existing id v (extensions h)); cbn [extension extension_profile extensions with_exts];
              rewrite <- Hs; (split; [reflexivity|intros; discriminate]).
@@ -270,7 +278,7 @@ Definition exts_inv (h : header) : Prop :=
   NoDup (ids h) /\ 0 <= extension_profile h < 65536 /\
   if extension_profile h =? profile_one_byte then Forall wf_ext1s (extensions h)
   else if extension_profile h =? profile_two_byte then Forall wf_ext2 (extensions h)
-  else Forall (fun e => eid e = 0) (extensions h).
+  else Forall (fun e => eid e = 0 /\ zlen (epayload e) <= 262140) (extensions h).
 
 Lemma set_existing_ids id v es :
   match set_existing id v es with
@@ -303,10 +311,14 @@ Lemma del_first_sub id es es' : del_first id es = Some es' ->
 Proof.
   revert es'. induction es as [|e t IH]; intros es' H; cbn [del_first] in H; [discriminate|].
   destruct (eid e =? id).
-  - injection H as <-. repeat split.
-    + intros P Hall. inversion Hall; assumption.
-    + cbn [map]. intros Hnd. inversion Hnd; assumption.
-    + cbn [map]. intros a Ha. right. exact Ha.
+  - injection H as <-.
+    assert (Hmap : map eid (filter (fun x => negb (eid x =? id)) t) = filter (fun k => negb (k =? id)) (map eid t)).
+    { clear. induction t as [|a t IH]; [reflexivity|]. cbn [filter map]. destruct (eid a =? id); cbn [negb map]; [exact IH|f_equal; exact IH]. }
+    repeat split.
+    + intros P Hall. apply Forall_cons_iff in Hall as [_ Hall]. apply Forall_forall. intros a Ha.
+      apply filter_In in Ha as [Ha _]. exact (proj1 (Forall_forall _ _) Hall a Ha).
+    + cbn [map]. intros Hnd. apply NoDup_cons_iff in Hnd as [_ Hnd]. rewrite Hmap. apply NoDup_filter. exact Hnd.
+    + cbn [map]. intros a Ha. right. rewrite Hmap in Ha. apply filter_In in Ha as [Ha _]. exact Ha.
   - destruct (del_first id t) as [t'|]; [|discriminate]. injection H as <-.
     destruct (IH t' eq_refl) as (H1 & H2 & H3). repeat split.
     + intros P Hall. apply Forall_cons_iff in Hall as [He Ht]. constructor; [assumption|apply H1; assumption].
@@ -357,7 +369,9 @@ Proof.
            destruct (set_existing id v (extensions h)); cbn [fst]; intros _; unfold ids;
              cbn [extensions extension_profile with_exts]; rewrite E1, E2; auto.
         -- destruct (negb (id =? 0)) eqn:Ea; [cbn [fst]; intros _; rewrite E1, E2; auto|].
-           destruct (upd_inv (fun e => eid e = 0) id v (extensions h) Hnd Hall ltac:(cbn [eid]; lia)) as [U1 U2].
+           destruct (262140 <? zlen v) eqn:Eb; [cbn [fst]; intros _; rewrite E1, E2; auto|].
+           destruct (upd_inv (fun e => eid e = 0 /\ zlen (epayload e) <= 262140) id v (extensions h) Hnd Hall
+                       ltac:(cbn [eid epayload]; lia)) as [U1 U2].
            destruct (set_existing id v (extensions h)); cbn [fst]; intros _; unfold ids;
              cbn [extensions extension_profile with_exts]; rewrite E1, E2; auto.
     + rewrite (Hshape Hx). cbn [app].
@@ -456,13 +470,13 @@ Qed.
    legacy-profile value that is not a whole number of 32-bit words. *)
 Theorem accepted_survives_wire h id v :
   fixed_ok h -> extension h = true -> exts_inv h ->
-  get_extension h id = Some v -> zlen v < 262144 ->
+  get_extension h id = Some v ->
   (header_marshal h = Err EShortBuffer /\ zlen v mod 4 <> 0 /\
    extension_profile h <> profile_one_byte /\ extension_profile h <> profile_two_byte)
   \/ (exists bs r, header_marshal h = Ok bs /\ header_unmarshal_into empty_header bs = Ok r /\
                    get_extension (hr_header r) id = Some v).
 Proof.
-  intros Hf Hx Hinv Hget Hvlen.
+  intros Hf Hx Hinv Hget.
   destruct (Z.eq_dec (extension_profile h) profile_one_byte) as [Hp1|Hp1];
     [|destruct (Z.eq_dec (extension_profile h) profile_two_byte) as [Hp2|Hp2]].
   - right. pose proof (inv_wf_rfc8285 h Hf Hx Hinv (or_introl Hp1)) as Hwf.
@@ -481,7 +495,7 @@ Proof.
     { destruct t as [|e2 t2]; [reflexivity|]. exfalso.
       apply Forall_cons_iff in Hall as [He Hall2]. apply Forall_cons_iff in Hall2 as [He2 _].
       cbn [map] in Hnd. apply NoDup_cons_iff in Hnd as [Hnin _]. apply Hnin. left. lia. }
-    subst t. apply Forall_cons_iff in Hall as [He _].
+    subst t. apply Forall_cons_iff in Hall as [[He Hesz] _].
     cbn [find] in Hget. destruct (eid e =? id) eqn:Eid; [|discriminate]. injection Hget as Hv.
     destruct (Z.eq_dec (zlen v mod 4) 0) as [Hm4|Hm4].
     + right.
@@ -490,7 +504,7 @@ Proof.
         unfold wf_exts. rewrite Hx. split.
         - right. right. repeat split; try assumption; try lia.
           exists v. rewrite Hes. split; [destruct e as [i0 p0]; simpl in He, Hv; subst; reflexivity|assumption].
-        - unfold ext_block_size. rewrite E1, E2, Hes, Hv. pose proof (zlen_nonneg v). lia. }
+        - unfold ext_block_size. rewrite E1, E2, Hes, Hv. pose proof (zlen_nonneg v). rewrite Hv in Hesz. lia. }
       destruct (header_roundtrip h Hwf) as (bs & Hm & _ & offs & Hu).
       exists bs, (mkHdrResult h (header_marshal_size h) offs []). repeat split; try assumption.
       cbn [hr_header]. unfold get_extension. rewrite Hx, Hes. cbn [negb find]. rewrite Eid, Hv. reflexivity.
@@ -501,4 +515,30 @@ Proof.
         pose proof (zlen_nonneg (csrc h)). pose proof (zlen_nonneg (epayload e)). lia. }
       case_if; [lia|]. unfold header_bytes. cbv zeta. rewrite Hx. unfold ext_body. rewrite E1, E2, Hes, Hv.
       destruct (zlen v mod 4 =? 0) eqn:E4; [lia|]. reflexivity.
+Qed.
+
+(* "deleted ids absent", for every header - also one that came off the wire with an id named twice *)
+Lemma del_first_absent id : forall es es', del_first id es = Some es' -> Forall (fun e => eid e <> id) es'.
+Proof.
+  induction es as [|e t IH]; intros es' H; cbn [del_first] in H; [discriminate|].
+  destruct (eid e =? id) eqn:E.
+  - injection H as <-. apply Forall_forall. intros a Ha. apply filter_In in Ha as [_ Ha].
+    destruct (eid a =? id) eqn:E2; [cbn in Ha; discriminate|]. apply Z.eqb_neq. exact E2.
+  - destruct (del_first id t) as [t'|]; [|discriminate]. injection H as <-.
+    constructor; [apply Z.eqb_neq; exact E|apply IH; reflexivity].
+Qed.
+
+Theorem deleted_absent h id h' : del_extension h id = (h', None) ->
+  get_extension h' id = None /\ (forall l, get_extension_ids h' = Some l -> ~ In id l).
+Proof.
+  unfold del_extension. destruct (extension h) eqn:Hx; cbn [negb]; [|intros H; discriminate].
+  destruct (del_first id (extensions h)) as [es'|] eqn:Ed; [|intros H; discriminate].
+  intros H. injection H as <-. pose proof (del_first_absent id _ _ Ed) as Hab.
+  unfold get_extension, get_extension_ids. cbn [extension extensions with_exts negb]. split.
+  - destruct (find (fun e => eid e =? id) es') as [e|] eqn:Ef; [|reflexivity].
+    apply find_some in Ef as [Hin He]. pose proof (proj1 (Forall_forall _ _) Hab e Hin) as Hne.
+    apply Z.eqb_eq in He. contradiction.
+  - intros l Hl. destruct es' as [|e0 t0]; [discriminate|]. injection Hl as <-.
+    intros Hin. change (eid e0 :: map eid t0) with (map eid (e0 :: t0)) in Hin. apply in_map_iff in Hin as (e & He & Hin). pose proof (proj1 (Forall_forall _ _) Hab e Hin) as Hne.
+    contradiction.
 Qed.
